@@ -72,8 +72,8 @@ MONADS = [
     ("permutations", "Ṗ", "multiset", lambda xs: [list(p) for p in itertools.permutations(xs)]),
     ("group consecutive", "Ġ", "eq", groups),
     ("counts", "Ċ", "eq", lambda xs: [[x, xs.count(x)] for x in first_occ(xs)]),
-    ("grade up sorts", "⇧", "grade_asc", lambda xs: xs),
-    ("grade down sorts descending", "⇩", "grade_desc", lambda xs: xs),
+    ("grade up is the stable ascending grade", "⇧", "eq", lambda xs: sorted(range(len(xs)), key=lambda i: xs[i])),
+    ("grade down is the stable descending grade", "⇩", "eq", lambda xs: sorted(range(len(xs)), key=lambda i: xs[i], reverse=True)),
     ("length", "L", "eq", len),
     ("head", "h", "eq", lambda xs: xs[0] if xs else None),
     ("tail", "t", "eq", lambda xs: xs[-1] if xs else None),
